@@ -2,6 +2,7 @@
 import Gpv.Model.Pipeline
 import Gpv.Model.PipeInfo
 import Gpv.Model.Stage
+import Gpv.Model.Ship
 import Gpv.Drv.Util
 namespace Gpv.Drv
 open Gpv Gpv.Pipe
@@ -212,6 +213,17 @@ def pipeDispatch (ws : List String) : List String :=
       match p.toNat?, y.toNat? with
       | some p, some y => [Gpv.PipeInfo.str p y]
       | _, _ => ["bad-op"]
+  | ["pipe.ship", nw, ec, sk, vb, mt, pr, yl] =>
+      -- what a stage made with these options looks like after __getstate__/__setstate__ ('-' = the attribute does not exist)
+      match nw.toNat?, ec.toNat?, pr.toNat?, yl.toNat? with
+      | some nw, some ec, some pr, some yl =>
+        let mtpc : Option Nat := if mt = "-" then none else mt.toNat?
+        let s0 : Gpv.Ship.Stage Unit := Gpv.Ship.Stage.make () nw ec (sk = "1") (vb = "1") mtpc
+        let s := Gpv.Ship.ship { s0 with processed := pr, yielded := yl }
+        let opt (o : Option Nat) : String := match o with | some k => toString k | none => "-"
+        let opt2 (o : Option (Option Nat)) : String := match o with | some (some k) => toString k | some none => "None" | none => "-"
+        [s!"nworkers={s.nworkers} cachelen={opt s.cachelen} verbose={if s.verbose then 1 else 0} skipNone={if s.skipNone then 1 else 0} maxtasksperchild={opt2 s.maxtasksperchild} processed={s.processed} yielded={s.yielded}"]
+      | _, _, _, _ => ["bad-op"]
   | ["pipe.call", k] =>
       let kind? : Option ArgKind := if k = "iterator" then some .iterator else if k = "element" then some .element else none
       match kind? with
